@@ -464,7 +464,7 @@ def gen_case(rnd, kind=None, small=False):
         T = len(allp) - 1
         if rnd.random() < 0.5:
             case['window'] = gen_window(rnd, g, S, E, allp, placement=rnd.choice(['inside', 'prefix', 'suffix', 'equal']))
-        case['prices'] = {'n': rnd.randint(1, 3), 'dlen': rnd.choice([0, 0, 0, 0, 0, 1, -1]), 'seed': rnd.getrandbits(30)}
+        case['prices'] = {'n': rnd.randint(1, 3), 'dlen': rnd.choice([0, 0, 0, 0, 0, 1, -1]), 'seed': rnd.getrandbits(30), 'nan': rnd.random() < 0.15}
     return case
 
 
@@ -585,6 +585,9 @@ def run_impl(case):
             p = case['prices']
             rr = random.Random(p['seed'])
             arrs = {'p%d' % i: [q8(rr) for _ in range(max(0, cur.T + p['dlen']))] for i in range(p['n'])}
+            if p.get('nan') and cur.T >= 3 and p['dlen'] == 0:
+                # an undefined entry (as values_to_grid produces outside all intervals) in an already-gridded array
+                arrs['p0'][rr.randrange(0, cur.T)] = float('nan')
             res['prices_in'] = arrs
             res['_obj']['prices_grid'] = cur
             try:
@@ -595,7 +598,7 @@ def run_impl(case):
                 res['prices'] = {'err': err_class(e), 'msg': str(e)[:120]}
             # the same arrays as ONE DataFrame with a plain numeric index (i-th row = i-th grid point), handed first to
             # another grid of the same length and then to this one: gridded data pass through unchanged both times
-            if p['dlen'] == 0 and cur.T >= 1 and isinstance(res['prices'], dict) and 'ok' in res['prices']:
+            if p['dlen'] == 0 and cur.T >= 1 and isinstance(res['prices'], dict) and 'ok' in res['prices'] and not p.get('nan'):
                 frame = pd.DataFrame({k_: np.array(v, dtype=float) for k_, v in arrs.items()})
                 g = case['grid']
                 shift = pd.Timedelta(days=7 * 52)
@@ -739,6 +742,8 @@ def run_model(case, drv, ir):
     if 'prices' in case and 'prices_in' in ir:
         mr['prices'] = {}
         for k, v in ir['prices_in'].items():
+            if any(x != x for x in v):
+                continue        # an undefined entry: the model's pass-through is about numbers (see finding F-19f)
             a = drv.ask({'op': 'prices_passthrough', 'T': len(cur['pts']), 'array': [fs(x) for x in v]})
             mr['prices'][k] = a['ok']
     return mr
@@ -898,6 +903,8 @@ def compare(case, ir, mr):
         i, m = ir['prices'], mr.get('prices', {})
         for k, v in ir['prices_in'].items():
             mm = m.get(k)
+            if mm is None and any(x != x for x in v):
+                continue
             if isinstance(mm, dict) and 'err' in mm:
                 if 'err' not in i:
                     out.append('prices: model %s vs implementation ok' % mm['err'])
@@ -1059,9 +1066,13 @@ def oracle(case, ir):
             if 'err' in ir['prices']:
                 V.append(_viol('gridded_passthrough', 'gridded arrays rejected: %s' % ir['prices']['msg'], kind='prices_rejected', **base))
             else:
+                def same(a, b):
+                    return a is not None and len(a) == len(b) and all((x == y) or (x != x and y != y) for x, y in zip(a, b))
                 for k, v in ir['prices_in'].items():
-                    if ir['prices']['ok'].get(k) != [float(x) for x in v]:
-                        V.append(_viol('gridded_passthrough', 'column %s changed' % k, kind='prices_changed', **base))
+                    if not same(ir['prices']['ok'].get(k), [float(x) for x in v]):
+                        hasnan = any(x != x for x in v)
+                        V.append(_viol('gridded_passthrough', 'column %s changed: given %s, returned %s' % (k, v[:8], (ir['prices']['ok'].get(k) or [])[:8]),
+                                       kind='prices_nan_filled' if hasnan else 'prices_changed', **base))
                 if not ir['prices']['index_ok']:
                     V.append(_viol('gridded_passthrough', 'index is not the grid points', kind='prices_index', **base))
         elif 'err' not in ir['prices']:
